@@ -340,7 +340,9 @@ func consumeString(sr *utils.StringReader, end rune) string {
 				r = '\r'
 			case 't':
 				r = '\t'
-			case '\\':
+			case '\\', '$':
+			case 'u':
+				r = consumeUnicodeEscape(sr)
 			default:
 				if r != end {
 					panic(fmt.Errorf("illegal escape '\\%c'", r))
@@ -351,6 +353,29 @@ func consumeString(sr *utils.StringReader, end rune) string {
 			panic(errors.New("unterminated string"))
 		default:
 			buf.WriteRune(r)
+		}
+	}
+}
+
+// consumeUnicodeEscape consumes the {X} part of a \\u{X} escape where X is one to six hexadecimal digits
+func consumeUnicodeEscape(sr *utils.StringReader) rune {
+	if sr.Next() != '{' {
+		panic(errors.New("malformed unicode escape"))
+	}
+	v := rune(0)
+	for n := 0; ; n++ {
+		r := sr.Next()
+		switch {
+		case r == '}' && n > 0:
+			return v
+		case n < 6 && r >= '0' && r <= '9':
+			v = v<<4 | (r - '0')
+		case n < 6 && r >= 'A' && r <= 'F':
+			v = v<<4 | (r - 'A' + 10)
+		case n < 6 && r >= 'a' && r <= 'f':
+			v = v<<4 | (r - 'a' + 10)
+		default:
+			panic(errors.New("malformed unicode escape"))
 		}
 	}
 }
